@@ -1,5 +1,6 @@
 import CfbVerif.Phys.Mini
 import CfbVerif.Phys.Api
+import CfbVerif.Phys.ApiInv
 /-!
 # C15 — released space is reused: repeating a net-zero cycle does not grow the file
 
@@ -21,7 +22,10 @@ What is proved, for every state satisfying the allocator invariant:
   stream nor the file grows (`C15_mini_reuse`);
 * as many allocations in a row as the free list is long do not grow the file (`C15_many_reuse`),
   and every release makes the free list strictly longer (`C15_release_grows_free`);
-* the invariant holds in a fresh file (`C15_inv_create`).
+* the invariant holds in a fresh file (`C15_inv_create`) **and after every history of API calls**
+  (`C15_inv_reachable`: every operation of the allocation level, and `physOf` built from them, is
+  `Good`), hence in every reachable state the file grows only when not a single FREE sector exists,
+  and whatever is handed out was FREE or is new (`C15_grow_only_when_full`).
 The statement about whole cycles ("from the second repetition on") is decided per history by the
 correspondence check (cycle oracle on the implementation + byte-exact model); it is *not* a theorem
 here: `C15_cycle_partial` records the step from the lemmas to one allocation sequence.
@@ -72,6 +76,24 @@ theorem C15_many_reuse (kinds : List Init) {p p' : P} {ids : List Nat} (inv : Fa
 theorem C15_release_grows_free {p p' : P} {start : Nat} (inv : FatInv p) (hs : start ≠ END)
     (h : freeChainFrom p start = .ok p') : p.free.length < p'.free.length :=
   freeChain_free_grows inv hs h
+
+/-- **after every history of API calls** the allocator invariant holds: the free list is exactly
+the set of FREE cells of the FAT (for files below 2³² − 1 sectors) -/
+theorem C15_inv_reachable (v4 : Bool) (maxBuf : Nat) (ops : List CfbVerif.Dir.HOp)
+    (small : Small (prun (PState.create v4 maxBuf) ops).p) : Inv (prun (PState.create v4 maxBuf) ops).p :=
+  inv_reachable v4 maxBuf ops small
+
+/-- **the file grows only when it is full**: in every reachable state, a sector allocation that
+appends to the file means that not a single sector of the file was FREE; and the sector handed out
+was FREE or is new -/
+theorem C15_grow_only_when_full (v4 : Bool) (maxBuf : Nat) (ops : List CfbVerif.Dir.HOp)
+    (small : Small (prun (PState.create v4 maxBuf) ops).p) {k : Init} {p' : P} {id : Nat}
+    (h : allocateSector (prun (PState.create v4 maxBuf) ops).p k = .ok (p', id)) :
+    (p'.numSectors ≠ (prun (PState.create v4 maxBuf) ops).p.numSectors →
+      ∀ i : Nat, (prun (PState.create v4 maxBuf) ops).p.fat[i]? ≠ some FREE) ∧
+    ((prun (PState.create v4 maxBuf) ops).p.fat[id]? = some FREE ∨ (prun (PState.create v4 maxBuf) ops).p.fat.size ≤ id) :=
+  let r := inv_allocateSector (inv_reachable v4 maxBuf ops small) h
+  ⟨r.2.2.2, r.2.2.1⟩
 
 /-- non-vacuity: a concrete state with a free sector satisfies the hypotheses -/
 def exampleState : P :=
